@@ -27,7 +27,7 @@ from translate import c03_facts, c03_export as X
 
 CFGS = [(o, q, p) for o in (True, False) for q in (True, False) for p in (False, True)]
 MAIN_CFG = (True, True, False)
-SIDE_CFGS = [(True, True, False), (False, False, True)]
+SIDE_CFGS = [(True, True, False), (False, True, True), (False, False, False)]
 
 R_TABLES = {
     "empty": [],
@@ -754,6 +754,7 @@ def run(ctx: core.Ctx):
     hist_status, hist_export = {}, {}
     pair_items, pair_meta, ident_items, ident_meta, raw_devs = [], [], [], [], []
     n_exec = n_collect_raises = n_nontriv = 0
+    n_broken_by_name = {}
     for fu in futs:
         try:
             R = fu.result(timeout=1500)
@@ -774,7 +775,9 @@ def run(ctx: core.Ctx):
             d["prog"] = progs[d.pop("idx")]
             raw_devs.append(d)
         for name, detail, data in R["brokens"]:
-            ctx.broken(name, detail, data)
+            n_broken_by_name[name] = n_broken_by_name.get(name, 0) + 1
+            if n_broken_by_name[name] <= 3:
+                ctx.broken(name, detail, data)
         for h, tgt in (("hist_status", hist_status), ("hist_export", hist_export)):
             for k, v in R[h].items():
                 tgt[k] = tgt.get(k, 0) + v
@@ -963,9 +966,15 @@ def run(ctx: core.Ctx):
         ctx.deviation(sig, what, base)
         all_sigs[sig] = all_sigs.get(sig, 0) + 1
 
-    def status_of(p, table, cfg):
+    def quoted_counterpart(p, table, o):
+        """status of the QUOTED rendering of the same statement on the same table (pretty does not matter), or None when
+        no quoted rendering was executed there"""
+        ran = CFGS if table == "t1" else (SIDE_CFGS if table in ("t2", "empty") else [MAIN_CFG])
+        cands = [c for c in ran if c[0] == o and c[1]]
+        if not cands:
+            return None
         for e in raw_devs:
-            if e["prog"] is p and e["table"] == table and e["cfg"] == cfg:
+            if e["prog"] is p and e["table"] == table and e["cfg"] in cands:
                 return e["status"]
         return "ok"
 
@@ -979,7 +988,8 @@ def run(ctx: core.Ctx):
                 "collect": {"columns": d["ref"][0], "rows": d["ref"][1]},
                 "text_result": ({"columns": d["got"][0], "rows": d["got"][1]} if d["got"] else None),
                 "steps_json": p.get("steps"), "name": p["name"], "mode": p["mode"]}
-        if not q and status_of(p, d["table"], (o, True, pr)) != status:
+        qc = quoted_counterpart(p, d["table"], o)
+        if not q and qc is not None and qc != status:
             # the quoted rendering of the same statement behaves differently: the failure is the unquoted printing
             if p.get("all_plain") is False:
                 n_dev["unquoted"] += 1
